@@ -20,6 +20,7 @@ type OrderKey struct {
 
 type C05Case struct {
 	Doc      map[string]any    `json:"doc"`
+	Env      Envelope          `json:"env,omitempty"`  // irrelevant options / table representation / repeated execution
 	Cols     []string          `json:"cols,omitempty"` // select list (empty = *)
 	Where    *sq.E             `json:"where,omitempty"`
 	Keys     []OrderKey        `json:"keys,omitempty"`
@@ -42,12 +43,21 @@ func init() {
 			"S[m:m+n], it is a sub-multiset of S, and without ORDER BY it equals S[m:m+n] exactly; never an error. Non-trivial: >=2 rows not already " +
 			"in order, or a window with m+n > |S| > m.",
 		Assumptions: []string{
+			"a third of the cases run inside an envelope that must not change the result: PostgresEscapingDialect / IdiomaticArrays on (the query uses neither double quotes nor brackets), Wrapped() with FROM root.<table>, tables handed over as []map[string]any, and a second execution on the same input object",
 			"tie order is not checked (an unstable sort is allowed)",
 			"NULL keys only in single-key ORDER BY; keys of one scalar kind",
 		},
-		Gen:      genC05,
-		New:      func() any { return &C05Case{} },
-		Check:    func(c any) Result { return checkC05(c.(*C05Case)) },
+		Gen: func(t *rapid.T) any {
+			c := genC05(t).(*C05Case)
+			c.Env = genEnvelope(t, "env")
+			return c
+		},
+		New: func() any { return &C05Case{} },
+		Check: func(c any) Result {
+			r := checkC05(c.(*C05Case))
+			r.Labels = append(r.Labels, c.(*C05Case).Env.Labels()...)
+			return r
+		},
 		Quick:    3000,
 		Thorough: 300000,
 	})
@@ -216,7 +226,7 @@ func checkC05(c *C05Case) Result {
 	}
 	res.Labels = dedup(res.Labels)
 
-	u := Run(typedDoc(c.Doc, map[string]map[string]string{"t": c.GoTypes}), c.sql(false, false), Opts{})
+	u := c.Env.Exec(typedDoc(c.Doc, map[string]map[string]string{"t": c.GoTypes}), c.sql(false, false))
 	res.Execs++
 	if !u.OK() || diffRows(u.Rows, wantU) != "" {
 		res.Violation = fmt.Sprintf("unordered result wrong: %s\n  expected %s\n  got %s", c.sql(false, false), val.JSON(wantU), u.Describe())
@@ -225,7 +235,7 @@ func checkC05(c *C05Case) Result {
 	s := u
 	outOfOrder := false
 	if len(c.Keys) > 0 {
-		s = Run(typedDoc(c.Doc, map[string]map[string]string{"t": c.GoTypes}), c.sql(true, false), Opts{})
+		s = c.Env.Exec(typedDoc(c.Doc, map[string]map[string]string{"t": c.GoTypes}), c.sql(true, false))
 		res.Execs++
 		if !s.OK() {
 			res.Violation = fmt.Sprintf("%s\n  got %s", c.sql(true, false), s.Describe())
@@ -269,7 +279,7 @@ func checkC05(c *C05Case) Result {
 	}
 	straddle := false
 	if c.HasLimit {
-		l := Run(typedDoc(c.Doc, map[string]map[string]string{"t": c.GoTypes}), c.sql(true, true), Opts{})
+		l := c.Env.Exec(typedDoc(c.Doc, map[string]map[string]string{"t": c.GoTypes}), c.sql(true, true))
 		res.Execs++
 		if !l.OK() {
 			res.Violation = fmt.Sprintf("%s (over %d rows)\n  got %s", c.sql(true, true), len(s.Rows), l.Describe())
